@@ -20,7 +20,8 @@ from . import common as C
 OCAML = ["cluster"]
 GO = ["cluster"]
 PROP = "props/C16.v"
-PROOFS = ["proofs/ClusterPlan.v", "proofs/ClusterRun.v", "model/Cluster.v", "model/ClusterLTS.v", "lib/LTS.v"]
+PROOFS = ["proofs/ClusterPlan.v", "proofs/ClusterRun.v", "proofs/ClusterInv.v", "proofs/ClusterStep.v",
+          "proofs/ClusterMain.v", "model/Cluster.v", "model/ClusterLTS.v", "lib/LTS.v"]
 KEY_COLLISION = "id-collision:x/x:stop"
 HOOK = "runnables/httpcluster/verif_export.go"
 SFX = ":stop"
@@ -387,8 +388,8 @@ def run(run):
     rcorpus = os.path.join(C.VERIF, "corpus", "C16", "runner.txt")
     if os.path.exists(rcorpus):
         runner_leg(run, ["-file", rcorpus, "-jobs", "4"], rstats, samples, known_samples)
-    n = 700 if quick else 24000
-    chunk = 700 if quick else 3000
+    n = 1600 if quick else 24000
+    chunk = 800 if quick else 3000
     done = 0
     while done < n:
         runner_leg(run, ["-family", "all", "-n", str(min(chunk, n - done)), "-seed", str(run.seed * 100 + done // chunk),
